@@ -168,7 +168,7 @@ static int find_ancestor_in_list(char ** name_list)
             return -1;
         }
         len = right - left - 1;
-        if (len <= 0 || len >= ST_COMM_SIZE_MAX) {
+        if (len < 0 || len >= ST_COMM_SIZE_MAX) {   // (a process name may be empty - prctl(PR_SET_NAME, "") - and the walk goes on above it)
             return -1;
         }
 
